@@ -171,7 +171,11 @@ def cli_cases(draw, tier="quick", only=None):
     else:
         base = {"text_pack": VALID_PACK, "text_sort": VALID_SORT, "text_xattr": VALID_XATTR}[what]
         case["base"] = base
-        case["edits"] = draw(st.lists(st.tuples(st.sampled_from(["del", "ins", "rep", "dupline", "trunc", "quote", "bs", "nul", "long"]), st.floats(0, 1),
+        # the image is named relative to a working directory that is not the pack directory in half of the cases (clean-up happens
+        # after the packer has been in the pack directory); 'noinput' = a well-formed line whose input file does not exist, which is
+        # only noticed while packing
+        case["relout"] = draw(st.booleans())
+        case["edits"] = draw(st.lists(st.tuples(st.sampled_from(["del", "ins", "rep", "dupline", "trunc", "quote", "bs", "nul", "long", "noinput"]), st.floats(0, 1),
                                                  st.sampled_from(list(b"\"\\ \t\n#[],=0x-*/.\r\0") + [0xFF, ord("a"), ord("9")])), min_size=1, max_size=5))
     return case
 
@@ -285,6 +289,10 @@ def apply_edits(data, edits):
             b[pos:pos] = b"\\"
         elif kind == "nul":
             b[pos:pos] = b"\0"
+        elif kind == "noinput":
+            e_ = bytes(b).find(b"\n", pos)
+            e_ = len(b) if e_ < 0 else e_ + 1
+            b[e_:e_] = b"file /zz-no-input-%d 0644 0 0 in/does-not-exist\n" % val
         elif kind == "long":
             b[pos:pos] = bytes([val or 65]) * 5000
     return bytes(b)
@@ -478,8 +486,14 @@ def check_case(case, opts):
             with open(aux, "wb") as fh:
                 fh.write(text)
             cmd = [gen, "-q", "-c", "gzip", "-F", lf, "-D", sc, "-S" if what == "text_sort" else "-A", aux, out]
-        r = vcommon.run(cmd, timeout=30)
-        judge(r, out, "gensquashfs on a mutated %s file (%s)" % (what[5:], ",".join(e[0] for e in case["edits"])))
+        cwd = None
+        if case.get("relout"):
+            cwd = os.path.join(sc, "rundir")
+            os.mkdir(cwd)
+            out = os.path.join(cwd, "rel.sqfs")
+            cmd[-1] = "rel.sqfs"
+        r = vcommon.run(cmd, timeout=30, cwd=cwd)
+        judge(r, out, "gensquashfs on a mutated %s file (%s)%s" % (what[5:], ",".join(e[0] for e in case["edits"]), ", image named relative to the working directory" if cwd else ""))
         return CaseInfo(True, [what, "rc_%d" % r.rc])
 
 
